@@ -252,9 +252,10 @@ def client_items(tier):
                 else:
                     body = good1 + b"\r\n" + m + b"\r\n" + good2 + b"\r\n"
                 nlines = 3 if m.strip(b" \t") or fam == "mlsx" else None
-                # entries named '.' / '..' are skipped by design; an MLSx line without a name means '.' too
+                # entries named '.' / '..' are skipped by design; a line without any name is not one of them: it is
+                # reported (ValueError), not dropped.  Only white space: no expectation (as for LIST)
                 dotted = (m.rstrip().endswith((b" .", b" ..")) or m.strip() in (b".", b"..")
-                          or (fam == "mlsx" and b" " not in m.rstrip()))
+                          or (fam == "mlsx" and not m.strip()))
                 cases.append({"op": "list", "raw": raw, "listing": L(body), "mutated": fam + "-line",
                               "expect_lines": None if dotted else 3})
     # lines that end before the name (a truncated listing): an entry without a name is not an entry named '.'
@@ -264,6 +265,11 @@ def client_items(tier):
               b"01/15/2024  12:30 PM             1,024 "):
         cases.append({"op": "list", "raw": "LIST", "listing": L(good1 + b"\r\n" + m + b"\r\n" + good2 + b"\r\n"),
                       "mutated": "nameless-line", "expect_lines": 3})
+    # MLSD lines without a pathname
+    for m in (b"type=file;size=3;", b"Type=file;Size=3;Modify=20240115123000;", b"type=file;size=3; ", b"garbage", b";",
+              b"type=dir;"):
+        cases.append({"op": "list", "raw": "MLSD", "listing": L(MLSX[0] + b"\r\n" + m + b"\r\n" + MLSX[1] + b"\r\n"),
+                      "mutated": "nameless-mlsd-line", "expect_lines": 3})
     # lines that look like the `total <blocks>` header of `ls -l` - alone, and with a whole entry behind them
     for m in (b"total 8", b"total 0", b"total 8 -rw-r--r-- 1 ftp ftp 3 Jan  1 00:00 lost.txt", b"total 12 junk",
               b"total 3x", b"Total 8", b"total"):
